@@ -192,4 +192,32 @@ pub proof fn thm_one_argument(ps: Seq<Piece>, vars: Map<String, String>)
     let vs = xfinish(xscan(written_all(ps), 0, xinit(), vars));
     if vs.len() == 0 { assert(vs =~= ""@) by { reveal_strlit(""); } }
 }
+/// text without `$`, `%` and backslash is received as it is written (used by C09: the words of a re-parsed statement
+/// are bound a second time when the statement runs; for such words the second binding changes nothing)
+pub open spec fn no_ref(v: Seq<char>) -> bool { forall|k: int| 0 <= k < v.len() ==> (#[trigger] v[k]) != '$' && v[k] != '%' && v[k] != '\\' }
+pub proof fn lemma_plain_argument(v: Seq<char>, vars: Map<String, String>)
+    requires no_ref(v)
+    ensures contrib(expand_spec(v, vars)) == seq![v]
+{
+    lemma_plain(v, 0, xinit(), vars);
+    assert(v.subrange(0, v.len() as int) =~= v);
+    assert(xinit().vs + v =~= v);
+    assert(!spread_form(v)) by { if v.len() >= 3 { assert(v[0] != '%'); } }
+    let vs = xfinish(xscan(v, 0, xinit(), vars));
+    assert(vs == v);
+    if vs.len() == 0 { assert(vs =~= ""@) by { reveal_strlit(""); } }
+}
+pub proof fn thm_plain_arguments_unchanged(vars: Map<String, String>, args: Seq<Seq<char>>, n: int)
+    requires 0 <= n <= args.len(), forall|k: int| 0 <= k < args.len() ==> no_ref(#[trigger] args[k]),
+    ensures bind_upto(vars, args, n) == args.take(n)
+    decreases n
+{
+    if n > 0 {
+        thm_plain_arguments_unchanged(vars, args, n - 1);
+        lemma_plain_argument(args[n - 1], vars);
+        assert(args.take(n - 1) + seq![args[n - 1]] =~= args.take(n));
+    } else {
+        assert(args.take(0) =~= Seq::<Seq<char>>::empty());
+    }
+}
 } // mod xlayerb
